@@ -217,7 +217,32 @@ theorem capture_free (c : Cfg) (ok : CfgOk c) (ν : Naming) (t : Tree)
     simp only [Tree.toForest, inputOk, all_node]
     exact ⟨hin, hi _ hall, rfl⟩
 
-/-- the statement without the guard on the flags -/
+/-- **Main theorem for the trees js.go produces** (after the fixes ce69f48 / f7bc618): with the rename flags computed as
+    `Minify` computes them (`Tree.withFlags`: `KeepVarNames`, `HasWith` propagated to every enclosing function and to
+    the global scope) the guard `flagsOk` always holds, so renaming is capture-free for every well-formed tree, every
+    option setting and every placement of `with` -/
+theorem capture_free_js (c : Cfg) (ok : CfgOk c) (ν : Naming) (keep : Bool) (t : Tree)
+    (hwf : wfTree (Tree.withFlags keep t) = true)
+    (hin : inputOk ν (Tree.withFlags keep t).toForest = true) :
+    ∀ o ∈ (Tree.withFlags keep t).toForest.occs,
+      resolve (renameTree c ν (Tree.withFlags keep t)) o.1 (renameTree c ν (Tree.withFlags keep t) o.2) =
+        resolveId o.1 o.2 := by
+  apply capture_free_partial c ok ν _ hwf _ hin
+  simp only [Tree.withFlags, Tree.toForest, flagsOk, Bool.false_eq_true, if_false, Bool.and_true]
+  apply computeFlags_flagsOk
+  intro h
+  simp only [Bool.and_eq_true, Bool.not_eq_true', Bool.or_eq_false_iff] at h
+  exact ⟨h.1, h.2.2⟩
+
+/-- the flags `Minify` computes satisfy the guard of `capture_free_partial` -/
+theorem flags_ok_js (keep : Bool) (t : Tree) : flagsOk (Tree.withFlags keep t).toForest = true := by
+  simp only [Tree.withFlags, Tree.toForest, flagsOk, Bool.false_eq_true, if_false, Bool.and_true]
+  apply computeFlags_flagsOk
+  intro h
+  simp only [Bool.and_eq_true, Bool.not_eq_true', Bool.or_eq_false_iff] at h
+  exact ⟨h.1, h.2.2⟩
+
+/-- the statement for arbitrary flags, without the guard -/
 def capture_free_full : Prop :=
   ∀ (c : Cfg), CfgOk c → ∀ (ν : Naming) (t : Tree), wfTree t = true → inputOk ν t.toForest = true →
     ∀ o ∈ t.toForest.occs, resolve (renameTree c ν t) o.1 (renameTree c ν t o.2) = resolveId o.1 o.2
@@ -234,8 +259,9 @@ def withTree : Tree :=
 
 def withNaming : Naming := fun v => (["g".toList, "z".toList, "f".toList, "o".toList, "e".toList]).getD v []
 
-/-- known finding K-C02-2: renaming is switched off *below* a renamed scope, the outer `z` becomes `e` and is
-    captured by the inner function's own `e` -/
+/-- the guard is necessary for arbitrary flags: with renaming switched off *below* a renamed scope the outer `z`
+    becomes `e` and is captured by the inner function's own `e`.  These are the flags /repo computed before fix f7bc618
+    (known finding K-C02-2, fixed); `flags_ok_js` shows the current computation never produces them -/
 theorem capture_free_counterexample : ¬ capture_free_full := by
   intro h
   have := h freqCfg freqCfg_ok withNaming withTree (by decide) (by decide)
@@ -302,7 +328,7 @@ def expectedSites : List (String × String × String) := [
 /-- **public names are kept (structural part).**  The global scope (`ast.Scope` / `ast.BlockStmt.Scope` in
     `Minify`) is never handed to `renameScope`: the regenerated list of call sites is the expected one, none of
     them lies in `Minify` and none has an argument rooted at the AST root; `renameScope` does nothing when the
-    flag is off; the flag starts as `!o.KeepVarNames` -/
+    flag is off; the flag starts as `!o.KeepVarNames && !ast.Scope.HasWith` -/
 theorem public_names_kept :
     Verif.Gen.RenameSites.sites = expectedSites ∧
     (Verif.Gen.RenameSites.sites.all fun s =>
@@ -310,7 +336,7 @@ theorem public_names_kept :
       ["stmt.Scope", "stmt.Body.Scope", "stmt.Catch.Scope", "stmt.Finally.Scope", "blockStmt.Scope",
         "decl.Body.Scope", "item.StaticBlock.Scope"].contains s.2.2) = true ∧
     Verif.Gen.RenameSites.guardFirst = true ∧
-    Verif.Gen.RenameSites.newRenamerArgs = ["!o.KeepVarNames", "!o.useAlphabetVarNames"] := by
+    Verif.Gen.RenameSites.newRenamerArgs = ["!o.KeepVarNames && !ast.Scope.HasWith", "!o.useAlphabetVarNames"] := by
   refine ⟨?_, ?_, ?_, ?_⟩ <;> decide
 
 /-! ## KeepVarNames and `with` -/
@@ -345,31 +371,30 @@ theorem renameScope_off (c : Cfg) (s : ScopeIn) :
   · rw [← List.unzip_snd, List.unzip_zip (by simp)]
   · rw [← List.unzip_fst, List.unzip_zip (by simp)]
 
-/-- **`with`**: a function scope marked `HasWith` gets the flag off, and so does every block scope of that
-    function (nested functions decide for themselves); the declarations of all these scopes keep their names -/
+/-- **`with`**: a function scope that contains `with` or encloses a function that does gets the flag off, and so
+    does every block scope of that function; the declarations of all these scopes keep their names
+    (`unrenamed_names_kept`) -/
 theorem with_disables (keep cur : Bool) (f : Forest) :
     (computeFlags keep cur f).all
-      (fun i ch => !(i.isFunc && i.hasWith) || (!i.rename && regionUnrenamed ch)) = true :=
+      (fun i ch => !(i.isFunc && (i.hasWith || anyWith ch)) || (!i.rename && regionUnrenamed ch)) = true :=
   computeFlags_with keep f cur
+
+/-- `with` anywhere in the program switches renaming off for the blocks of the global code -/
+theorem with_disables_toplevel (keep : Bool) (t : Tree) (h : (t.root.hasWith || anyWith t.children) = true) :
+    regionUnrenamed (Tree.withFlags keep t).children = true := by
+  simp only [Tree.withFlags, h, Bool.not_true, Bool.and_false]
+  exact computeFlags_region keep t.children
 
 /-- the full reading of the property — *every name occurring in* a function that contains `with` is emitted
     unchanged — as a decidable predicate on a tree and two namings -/
 def withRefsKept (ν ν' : Naming) (f : Forest) : Bool :=
   f.all (fun i ch => !(i.isFunc && i.hasWith) || (i.refs ++ ch.free).all (fun v => ν' v == ν v))
 
-def with_names_full : Prop :=
-  ∀ (c : Cfg), CfgOk c → ∀ (ν : Naming) (t : Tree), wfTree t = true →
-    withRefsKept ν (renameTree c ν (Tree.withFlags false t)) (Tree.withFlags false t).toForest = true
-
-/-- known finding K-C02-2 again: a variable of an *enclosing* function that is used inside the `with` function
-    is renamed (`z` → `e`), so a name occurring in the `with` function changes -/
-theorem with_names_counterexample : ¬ with_names_full := by
-  intro h
-  have := h freqCfg freqCfg_ok withNaming withTree (by decide)
-  revert this
-  decide
-
-example : Tree.withFlags false withTree = withTree := by decide
+/-- the tree of K-C02-2 with the flags `Minify` computes now: nothing is renamed, every name of the `with` function stays -/
+example : (Tree.withFlags false withTree).children =
+      .node { withG with rename := false } (.node withF .nil .nil) .nil ∧
+    withRefsKept withNaming (renameTree freqCfg withNaming (Tree.withFlags false withTree))
+      (Tree.withFlags false withTree).toForest = true := by decide
 
 /-! ## shorthand properties and object patterns -/
 
